@@ -47,15 +47,14 @@ def maxTokens (limit : Option Nat) (total overhead : Nat) : Nat :=
 `fix:` commit for C29: the overlap is ignored when everything fits into one chunk). -/
 def effOverlap (n window overlap : Nat) : Nat := if n ≤ window then 0 else overlap
 
-/-- Body of the `for (chunk_idx, (tokens_chunk, offsets_chunk))` loop, single-sequence path. -/
-def mkSingle (cls sep : Option Nat) (toks offs : List Nat) (textLen maxTok : Nat)
-    (p : (Nat × Nat) × Nat) : Chunk :=
-  let tc := slice toks p.1
-  let oc := slice offs p.1
+/-- Body of the `for (tokens_chunk, offsets_chunk)` loop, single-sequence path. The final offset
+is looked up at the chunk's own end position (`subslice_offsets(offsets_chunk).end`). -/
+def mkSingle (cls sep : Option Nat) (toks offs : List Nat) (textLen : Nat) (r : Nat × Nat) : Chunk :=
+  let tc := slice toks r
+  let oc := slice offs r
   let ids := cls.toList ++ tc ++ sep.toList
   { ids := ids
-    offsets := (if cls.isSome then [oc.headD 0] else []) ++ oc ++
-      [offs.getD (p.2 * maxTok + oc.length) textLen]
+    offsets := (if cls.isSome then [oc.headD 0] else []) ++ oc ++ [offs.getD (r.1 + oc.length) textLen]
     firstSeq := ids.length }
 
 /-- `encode_chunks` for `EncoderInput::Item`. `toks`/`offs` are the encoded tokens and their
@@ -66,18 +65,17 @@ def encodeSingle (cls sep : Option Nat) (limit : Option Nat) (overlap : Nat)
   if maxTok = 0 then some []
   else
     (chunkRanges toks.length maxTok (effOverlap toks.length maxTok overlap)).map
-      (fun rs => rs.zipIdx.map (mkSingle cls sep toks offs textLen maxTok))
+      (fun rs => rs.map (mkSingle cls sep toks offs textLen))
 
 /-- Loop body of the pair path. -/
 def mkPair (cls sep : Option Nat) (toks1 offs1 toks2 offs2 : List Nat) (len1 len2 : Nat)
-    (firstLen secondLen : Nat) (p : (Nat × Nat) × Nat) : Chunk :=
-  let tc := slice toks2 p.1
-  let oc := slice offs2 p.1
+    (firstLen : Nat) (r : Nat × Nat) : Chunk :=
+  let tc := slice toks2 r
+  let oc := slice offs2 r
   let head := cls.toList ++ toks1.take firstLen ++ sep.toList
   { ids := head ++ tc ++ sep.toList
     offsets := (if cls.isSome then [0] else []) ++ offs1.take firstLen ++
-      (if sep.isSome then [len1] else []) ++ oc ++
-      [offs2.getD (p.2 * secondLen + oc.length) (len1 + len2)]
+      (if sep.isSome then [len1] else []) ++ oc ++ [offs2.getD (r.1 + oc.length) (len1 + len2)]
     firstSeq := head.length }
 
 /-- `encode_chunks` for `EncoderInput::Pair`. `len1`/`len2` = byte lengths of the two texts;
@@ -92,6 +90,62 @@ def encodePair (cls sep : Option Nat) (limit : Option Nat) (overlap : Nat)
     if secondLen = 0 then some []
     else
       (chunkRanges toks2.length secondLen (effOverlap toks2.length secondLen overlap)).map
-        (fun rs => rs.zipIdx.map (mkPair cls sep toks1 offs1 toks2 offs2 len1 len2 firstLen secondLen))
+        (fun rs => rs.map (mkPair cls sep toks1 offs1 toks2 offs2 len1 len2 firstLen))
+
+/-! ## The public entry points: special-token resolution, `encode_chunks`, `encode` -/
+
+/-- A configured special token (`TokenizerOptions::cls_token` / `sep_token`): not configured,
+configured with a string the model does not know (`get_token_id` fails), or known with an id. -/
+inductive Special where
+  | absent
+  | unknown
+  | tok (id : Nat)
+  deriving DecidableEq, Repr
+
+inductive EncErr where
+  | tokenIdNotFound
+  deriving DecidableEq, Repr
+
+/-- `self.cls_token()` / `self.sep_token()`: `Option<&str>` → `Result<Option<TokenId>, _>`. -/
+def Special.resolve : Special → Except EncErr (Option Nat)
+  | .absent => .ok none
+  | .unknown => .error .tokenIdNotFound
+  | .tok id => .ok (some id)
+
+/-- `EncoderInput` after `encode_str`: token ids, offsets and byte length(s) of the text(s). -/
+inductive Input where
+  | item (toks offs : List Nat) (len : Nat)
+  | pair (toks1 offs1 toks2 offs2 : List Nat) (len1 len2 : Nat)
+
+def Input.isPair : Input → Bool
+  | .item .. => false
+  | .pair .. => true
+
+/-- `Tokenizer::encode_chunks(input, EncodeOptions { max_chunk_len, overlap })`.
+`.error` = `Err(TokenizerError)`, `.ok none` = panic, `.ok (some cs)` = `Ok(cs)`.
+`[CLS]` is resolved before `[SEP]`, both before anything is encoded. -/
+def encodeChunks (cls sep : Special) (limit : Option Nat) (overlap : Nat) (inp : Input) :
+    Except EncErr (Option (List Chunk)) := do
+  let c ← cls.resolve
+  let s ← sep.resolve
+  match inp with
+  | .item toks offs len => pure (encodeSingle c s limit overlap toks offs len)
+  | .pair t1 o1 t2 o2 l1 l2 => pure (encodePair c s limit overlap t1 o1 t2 o2 l1 l2)
+
+/-- The single empty chunk `Tokenizer::encode` fabricates when `encode_chunks` yields nothing. -/
+def fallbackChunk (c s : Option Nat) (isPair : Bool) : Chunk :=
+  let ids := c.toList ++ s.toList ++ (if isPair then s.toList else [])
+  { ids := ids, offsets := ids.map (fun _ => 0), firstSeq := optLen c + optLen s }
+
+/-- `Tokenizer::encode(input, Some(options))`: the first chunk of `encode_chunks`, or the
+fallback chunk. -/
+def encode (cls sep : Special) (limit : Option Nat) (overlap : Nat) (inp : Input) :
+    Except EncErr (Option Chunk) := do
+  let c ← cls.resolve
+  let s ← sep.resolve
+  match ← encodeChunks cls sep limit overlap inp with
+  | none => pure none
+  | some [] => pure (some (fallbackChunk c s inp.isPair))
+  | some (ch :: _) => pure (some ch)
 
 end RtenVerif.Chunks
